@@ -14,7 +14,7 @@ from discopy import messages
 from discopy.quantum.circuit import (
     Functor, Id, bit, qubit, Discard, Measure)
 from discopy.quantum.gates import (
-    ClassicalGate, QuantumGate, Bits, Bra, Ket,
+    ClassicalGate, QuantumGate, Controlled, Bits, Bra, Ket,
     Swap, Scalar, MixedScalar, GATES, SWAP, X, Rx, Rz, CRz, format_number)
 
 
@@ -203,16 +203,21 @@ def to_tk(circuit):
         old, new = unit_factory(i), unit_factory(j)
         tk_circ.rename_units({old: new, new: old})
 
+    def is_dagger(box):
+        return is_dagger(box.controlled) if isinstance(box, Controlled)\
+            else box.is_dagger
+
     def add_gate(qubits, box, offset):
         i_qubits = [qubits[offset + j] for j in range(len(box.dom))]
         if isinstance(box, (Rx, Rz)):
             tk_circ.__getattribute__(box.name[:2])(2 * box.phase, *i_qubits)
         elif isinstance(box, CRz):
             tk_circ.__getattribute__(box.name[:3])(2 * box.phase, *i_qubits)
-        elif box.is_dagger and hasattr(tk_circ, box.name + 'dg'):
+        elif is_dagger(box) and hasattr(tk_circ, box.name + 'dg'):
             tk_circ.__getattribute__(box.name + 'dg')(*i_qubits)
         elif hasattr(tk_circ, box.name) and (
-                not box.is_dagger or (box.array == box.dagger().array).all()):
+                not is_dagger(box)
+                or (box.array == box.dagger().array).all()):
             tk_circ.__getattribute__(box.name)(*i_qubits)
         else:
             raise NotImplementedError
@@ -281,11 +286,19 @@ def from_tk(tk_circuit):
             return Rz(tk_gate.op.params[0] / 2)
         if name == 'CRz':
             return CRz(tk_gate.op.params[0] / 2)
+        return gate_from_name(name)
+
+    def gate_from_name(name):
         if name == 'SWAP':
             return SWAP
+        if name.endswith('dg'):
+            return gate_from_name(name[:-2]).dagger()
         for gate in GATES:
             if name == gate.name:
                 return gate
+        if name.startswith('C') and name[1:] in [
+                gate.name for gate in GATES if len(gate.dom) == 1]:
+            return Controlled(gate_from_name(name[1:]))
         raise NotImplementedError
 
     def make_units_adjacent(tk_gate):
